@@ -140,6 +140,7 @@ def body(m, cfg):
             m.ok("different number of components rejected")
         return
     shape, dt = cfg.get("shape", [2]), cfg.get("dt", "float64")
+    m.dtype_tol(dt)
     if kind == "lift":
         op, nvec, rhs, ua, ub = cfg["op"], cfg["nvec"], cfg["rhs"], cfg["ua"], cfg["ub"]
         tag = f"{op}:{rhs}:n{nvec}"
